@@ -2,7 +2,6 @@ import PyElf.Driver.Json
 import PyElf.Spec.ElfImage
 import PyElf.Spec.ElfImageFast
 import PyElf.Spec.ElfWfFast
-import PyElf.Spec.ElfNoNames
 import PyElf.Model.ElfFile
 import PyElf.Model.ElfLookup
 import PyElf.Model.Utf8
@@ -165,13 +164,11 @@ def handle (req : Json) : Except String Json := do
       let nomodel := (jBool req "nomodel").toOption.getD false
       -- `wf`: the domain of the theorems `*_exact_z` (compressed sections admitted);
       -- `wf0`: the narrower domain of the theorems `*_exact` (no SHF_COMPRESSED section)
-      -- `wfN`: a well-formed file WITHOUT a section-name string table (Spec/ElfNoNames.lean): outside `wfZ`,
-      -- the known finding `no-name-table`
+      -- (files WITHOUT a section-name string table, e_shstrndx = SHN_UNDEF, are inside both: their sections are nameless)
       -- (`wfZFast = wfZ`, Spec.C01.wfZFast_eq; the fully enumerated ≥ 0xff00-section images of the thorough tier —
-      -- `nomodel` — are classified by it alone: `wf` and `wfNoNames` index `List`s quadratically)
+      -- `nomodel` — are classified by it alone: `wf` indexes `List`s quadratically)
       let wfz := Spec.C01.wfZFast elfEnv d
       return Json.mkObj [("wf", Json.bool wfz), ("wf0", if nomodel then Json.null else Json.bool (d.wf elfEnv)),
-                         ("wfN", Json.bool (!nomodel && !wfz && Spec.C01.wfNoNames elfEnv d)),
                          ("bytes", jHexOf bytes),
                          ("expect", resJson id (specObserve d queries)),
                          ("model", if nomodel then Json.null else resJson id (modelObserve bytes queries))]
@@ -184,13 +181,9 @@ def handle (req : Json) : Except String Json := do
     | none => return Json.mkObj [("wf", Json.bool false), ("why", "not encodable")]
     | some bytes =>
       -- `wfZFast = wfZ` (Spec.C01.wfZFast_eq): array-indexed, linear in the number of sections
-      -- `wfX`: outside `wfZ` (no name table) and inside the domain of `extnum_only_partial` (one SHT_NULL section
-      -- header carrying the escapes, e_shstrndx = SHN_UNDEF: the shape of a Linux core dump with ≥ 0xffff segments)
-      let disjoint := match d.regions with
-        | some rs => regionsDisjoint (sortRegions rs)
-        | none => false
-      return Json.mkObj [("wf", Json.bool (Spec.C01.wfZFast elfEnv d)),
-                         ("wfX", Json.bool (disjoint && Spec.C01.extnumOnly elfEnv d)), ("bytes", jHexOf bytes),
+      -- (the shape of a Linux core dump with ≥ 0xffff segments — one SHT_NULL section header carrying the escapes,
+      -- e_shstrndx = SHN_UNDEF — is inside `wfZ` like every file without a name table)
+      return Json.mkObj [("wf", Json.bool (Spec.C01.wfZFast elfEnv d)), ("bytes", jHexOf bytes),
                          ("expect", resJson id (specObserveBig d secIdx segIdx)),
                          ("model", resJson id (modelObserveBig bytes secIdx segIdx))]
   | "raw" =>
